@@ -45,10 +45,16 @@ BLOCKS = [
     "b *\n    e\n",
     "s *\n    ~ %global\n",
 ]
+# overlapping rules whose precedence is fixed by %prio (no specificity heuristic involved):
+# a specific local rule, a %global rule in between, and a broad local rule; children of BOTH local rules apply
+PRIO_BLOCK = "p X %prio=2\n    m\np.* %global %prio=1\np * %prio=0\n    dd ~\n"
+
 
 
 def acl_text(mask, cd_a=False, cd_b=False):
     parts = []
+    if mask >> 6 & 1:
+        parts.append(PRIO_BLOCK)
     for i, b in enumerate(BLOCKS):
         if mask >> i & 1:
             parts.append(b.format(cd_a=" %cant_delete=1" if cd_a else "", cd_b=" %cant_delete=1" if cd_b else ""))
@@ -231,6 +237,32 @@ def h_wide(case: int) -> bool:
     return ok
 
 
+# ---------------------------------------------------------------- overlapping rules resolved by %prio
+OVERLAP = "b *\n    n * %prio=1\n        c\nb 1\n    ~ %global\n"
+PRIO_SLOTS = [S(["p X", "p Y"], [S(["m"]), S(["dd z"]), S(["q"])]), S(["a"]),
+              S(["b 1"], [S(["n 1"], [S(["c"]), S(["q"])])]), S(["b 2"], [S(["n 1"], [S(["c"]), S(["q"])])])]
+NPT = count(PRIO_SLOTS)
+NPRIO = 8 * 5 * NPT
+PLO, PHI = rt.shard_range(NPRIO)
+PB = [0, 0b000001, 0b000010, 0b1000000, OVERLAP]
+
+
+def h_prio(case: int) -> bool:
+    """
+    pre: PLO <= case < PHI
+    post: _ == True
+    """
+    c = pick(case, PHI, PLO)
+    with NoTracing():
+        ai, bi, ti = digits(c, [8, 5, NPT])
+        ta = acl_text(0b1000000 | ai)
+        tb = PB[bi] if isinstance(PB[bi], str) else acl_text(PB[bi])
+        ok, detail, kind, nt = check_filter(ta, tb, unrank(PRIO_SLOTS, ti))
+        rt.record({"prio": True, "a": ai, "b": bi, "tree_idx": ti}, ok, [ai, bi, ti] if nt else None, detail=detail,
+                  fingerprint="C06:%s" % kind)
+    return ok
+
+
 # ---------------------------------------------------------------- E-Z3 side obligation: grammar is heuristic-free
 def z_disjoint():
     """local-direct vs global-direct vs reverse languages of the compiled grammar rules are pairwise disjoint at every level
@@ -293,12 +325,17 @@ def plan(tier):
         dict(name="grammar.disjoint", func="z_disjoint", kind="py", shards=1, timeout=200),
         dict(name="deep", func="h_deep", shards=16 if q else 48, timeout=280 if q else 2400),
         dict(name="wide", func="h_wide", shards=16 if q else 32, timeout=280 if q else 2400),
+        dict(name="prio", func="h_prio", shards=4, timeout=280 if q else 900),
         dict(name="twin", func="h_twin", shards=1, timeout=60, expect="refuted"),
     ]
 
 
 def replay(obligation, case):
     global SLOTS
+    if case.get("prio"):
+        tb = PB[case["b"]] if isinstance(PB[case["b"]], str) else acl_text(PB[case["b"]])
+        ok, detail, kind, _ = check_filter(acl_text(0b1000000 | case["a"]), tb, unrank(PRIO_SLOTS, case["tree_idx"]))
+        return {"ok": ok, "detail": detail, "fingerprint": "C06:%s" % kind}
     if "tree_idx" in case:
         slots = TREE_SLOTS if case.get("tier", "quick") == "quick" else TREE_SLOTS_T
         tree = unrank(slots, case["tree_idx"])
